@@ -87,8 +87,13 @@ class NewtonRaphsonGeometry(StandardGeometry, ABC):
             dz = intersections[:, 2] - z_surface
             distance = dz / ray_directions[:, 2]
             intersections -= distance[:, None] * ray_directions
-            if np.max(np.abs(dz)) < self.tol:
-                break
+            # rays that have failed (NaN) never converge: they must not keep
+            # the rest of the bundle iterating, which near a steep rim drives
+            # rays that had converged away from the surface again
+            with warnings.catch_warnings():
+                warnings.simplefilter('ignore')
+                if np.nanmax(np.abs(dz)) < self.tol:
+                    break
         position = np.column_stack((rays.x, rays.y, rays.z))
         return np.linalg.norm(intersections - position, axis=1)
 
